@@ -2,7 +2,7 @@
 import os
 import re
 
-from engine import cc, cfg, lib
+from engine import facts, cc, cfg, lib
 from engine.facts import erase, short_loc, CACHE
 from engine.lib import A, qe
 from engine.table import Interp, Unknown, product
@@ -272,7 +272,7 @@ int main() {}
 
 
 def c02e(ctx):
-    path = os.path.join(CACHE, "gen", "c02_types.cpp")
+    path = os.path.join(facts.gen_dir(), "c02_types.cpp")
     os.makedirs(os.path.dirname(path), exist_ok=True)
     with open(path, "w") as fh:
         fh.write(WITNESS)
